@@ -160,7 +160,22 @@ pub fn record(db: &Db, src: &str, id: usize, ids: &Ids, with_tokens: bool) -> Va
             lookups.push(json!({"phrase": v["phrase"], "top": v["top"]}));
         }
     }
-    let mut rec = json!({"id": id, "text": src, "src": char_names(src), "res": res, "apps": apps,
+    // can every value be displayed?  (C11: "a value that can be displayed")
+    let shown: Vec<bool> = o
+        .results
+        .iter()
+        .map(|r| match r {
+            Ok(n) => std::panic::catch_unwind(|| {
+                let mut spec = anything::rational::DisplaySpec::default();
+                spec.limit = 12;
+                spec.exponent_limit = 12;
+                format!("{} {} {}", n.value.display(&spec), n.unit.display(true), n.unit.display(false)).len()
+            })
+            .is_ok(),
+            Err(_) => true,
+        })
+        .collect();
+    let mut rec = json!({"id": id, "text": src, "src": char_names(src), "res": res, "apps": apps, "shown": shown,
                          "panic": o.panic.clone().unwrap_or_default(), "lookups": lookups,
                          "desc": o.descriptions.iter().map(|(q, d)| json!([q, d])).collect::<Vec<_>>()});
     if with_tokens {
